@@ -86,3 +86,68 @@ func Shuffle(n int, swap func(i, j int)) {
 }
 
 func Seed(int64) {}
+
+// ---------------------------------------------------------------- generators of one's own
+
+// Source / Rand mirror math/rand's explicit generators. A *Rand is NOT safe for concurrent use, and the
+// shim keeps it that way: every draw touches the generator's own state without synchronisation, so that
+// two goroutines sharing one generator are a data race here exactly as they are with the real type.
+type Source = rand.Source
+
+func NewSource(seed int64) Source { return rand.NewSource(seed) }
+
+type Rand struct {
+	real  *rand.Rand
+	draws int // unsynchronised on purpose (see above)
+}
+
+func New(src Source) *Rand { return &Rand{real: rand.New(src)} }
+
+func (r *Rand) Seed(seed int64) { r.draws++; r.real.Seed(seed) }
+
+func (r *Rand) Int() int {
+	r.draws++
+	if !driven() {
+		return r.real.Int()
+	}
+	return Int()
+}
+
+func (r *Rand) Intn(n int) int {
+	r.draws++
+	if !driven() {
+		return r.real.Intn(n)
+	}
+	return Intn(n)
+}
+
+func (r *Rand) Int63() int64         { return int64(r.Int()) }
+func (r *Rand) Int31() int32         { return int32(r.Int()) }
+func (r *Rand) Uint32() uint32       { return uint32(r.Int()) }
+func (r *Rand) Int63n(n int64) int64 { return int64(r.Intn(int(n))) }
+func (r *Rand) Int31n(n int32) int32 { return int32(r.Intn(int(n))) }
+
+func (r *Rand) Float64() float64 {
+	r.draws++
+	if !driven() {
+		return r.real.Float64()
+	}
+	return Float64()
+}
+
+func (r *Rand) Perm(n int) []int {
+	r.draws++
+	if !driven() {
+		return r.real.Perm(n)
+	}
+	return Perm(n)
+}
+
+func (r *Rand) Shuffle(n int, swap func(i, j int)) {
+	r.draws++
+	if !driven() {
+		r.real.Shuffle(n, swap)
+		return
+	}
+	Shuffle(n, swap)
+}
